@@ -1,2 +1,108 @@
-(* C04 — statements are added when the engine proofs (see notes/) are closed. *)
-From Parsley Require Import Engine Spec.
+(* C04 — Parse yields a node or an error, never neither; Sentence means whole input.
+   Only statements: each theorem repeats the full statement of a lemma proved elsewhere and is closed by [exact]. *)
+From Coq Require Import String List NArith ZArith Bool.
+From Parsley Require Import Obs Base Grammar Engine Spec Sound Complete Pump Top.
+Import ListNotations.
+Open Scope N_scope.
+
+(* parsley.Parse returns exactly one of a non-empty result or an error, for every grammar, input and fuel (the model's
+   TopNode always carries a non-empty node list; TopErr an error). *)
+Theorem C04_xor :
+  forall (inp : input) (rules : list pexpr) (fuel : nat) (root : pexpr) (t : top),
+  parse_top inp rules fuel root = Ok t ->
+  match t with
+  | TopNode ns _ => ns <> []
+  | TopErr _ _ => True
+  end.
+Proof. exact @Top.parse_top_xor. Qed.
+Print Assumptions C04_xor.
+
+(* A successful Sentence-rooted parse returns exactly one tree, which starts at the first byte, ends at end of input, is
+   span-well-formed, and is SEQ[t; EOF] for a valid derivation t of the root that consumes the whole input (C01 fragment). *)
+Theorem C04_sentence_sound :
+  forall (inp : input) (rules : list pexpr) (site : N -> option pexpr),
+  frag_rules rules ->
+  wf_rules rules site ->
+  forall (fuel : nat) (root : pexpr) (ns : list node) (c : ctx),
+  frag root = true ->
+  wf rules site root ->
+  parse_top inp rules fuel (sentence root) = Ok (TopNode ns c) ->
+  exists n : node,
+    ns = [n] /\
+    node_pos n = i_offset inp /\
+    node_rpos n = i_offset inp + i_len inp /\
+    span_ok inp n /\
+    (exists d : dtree,
+       valid inp rules root (i_offset inp) d /\
+       dend d = i_offset inp + i_len inp /\
+       n =
+       NNonTerm (seq_token SeqOf) (ISelect 0) [yield d; NEnd (i_offset inp + i_len inp)]
+         (i_offset inp) (i_offset inp + i_len inp)).
+Proof. exact @Sound.C04_sentence_sound. Qed.
+Print Assumptions C04_sentence_sound.
+
+(* Its leaves spell the whole file. *)
+Theorem C04_sentence_spells :
+  forall (inp : input) (rules : list pexpr) (site : N -> option pexpr),
+  frag_rules rules ->
+  wf_rules rules site ->
+  forall (fuel : nat) (root : pexpr) (ns : list node) (c : ctx),
+  frag root = true ->
+  wf rules site root ->
+  parse_top inp rules fuel (sentence root) = Ok (TopNode ns c) ->
+  exists n : node, ns = [n] /\ leaves n = i_data inp.
+Proof. exact @Sound.C04_sentence_spells. Qed.
+Print Assumptions C04_sentence_spells.
+
+(* The same for all combinators (with trimming the tree starts after a whitespace run from the first byte). *)
+Theorem C04_sentence_sound_all :
+  forall (inp : input) (rules : list pexpr) (site : N -> option pexpr)
+    (fuel : nat) (root : pexpr) (ns : list node) (c : ctx),
+  wf_rules rules site ->
+  wf rules site root ->
+  parse_top inp rules fuel (sentence root) = Ok (TopNode ns c) ->
+  exists n : node,
+    ns = [n] /\
+    ws_run inp (i_offset inp) (node_pos n) /\
+    node_rpos n = i_offset inp + i_len inp /\
+    xspan_ok inp n /\
+    (exists d : xtree,
+       xvalid inp rules root (i_offset inp) d /\
+       xdend inp d = i_offset inp + i_len inp /\
+       n =
+       NNonTerm (seq_token SeqOf) (ISelect 0) [xyield inp d; NEnd (i_offset inp + i_len inp)]
+         (node_pos (xyield inp d)) (i_offset inp + i_len inp)).
+Proof. exact @Sound.C04_sentence_sound_all. Qed.
+Print Assumptions C04_sentence_sound_all.
+
+(* Sentence never returns more than one tree (any grammar, any context). *)
+Theorem C04_sentence_single :
+  forall (inp : input) (rules : list pexpr) (fuel : nat) (root : pexpr)
+    (c : ctx) (stk : stack) (lrc : intmap) (pos : N) (ns : list node) 
+    (cp : intset) (err : option perr) (c' : ctx),
+  parse inp rules fuel (sentence root) c stk lrc pos = Ok (ns, cp, err, c') ->
+  ns = [] \/ (exists n : node, ns = [n]).
+Proof. exact @Sound.sentence_single. Qed.
+Print Assumptions C04_sentence_single.
+
+(* PARTIAL (monotone fragment, see C01): if some derivation of the root consumes the entire input, the Sentence-rooted
+   parse succeeds.  Together with C04_sentence_sound: it succeeds PRECISELY when some parse consumes the entire input. *)
+Theorem C04_sentence_complete_partial :
+  forall (inp : input) (rules : list pexpr) (site : N -> option pexpr),
+  wf_rules rules site ->
+  (forall (k : N) (body : pexpr), nth_N rules k = Some body -> mono body = true) ->
+  (forall (k : N) (body : pexpr), nth_N rules k = Some body -> endfree body = true) ->
+  forall root : pexpr,
+  wf rules site root ->
+  mono root = true ->
+  endfree root = true ->
+  forall (fuel : nat) (t : top) (d : dtree),
+  parse_top inp rules fuel (sentence root) = Ok t ->
+  valid inp rules root (i_offset inp) d ->
+  dend d = i_offset inp + i_len inp ->
+  exists (n0 : node) (c : ctx),
+    is_eof inp (node_rpos n0) = true /\
+    t = TopNode [handle_result (sq root) (i_offset inp) [n0; NEnd (node_rpos n0)]] c.
+Proof. exact @Pump.C04_sentence_complete. Qed.
+Print Assumptions C04_sentence_complete_partial.
+
